@@ -2,6 +2,7 @@ package main
 
 import (
 	"fmt"
+	"go/types"
 	"strings"
 
 	"golang.org/x/tools/go/ssa"
@@ -14,7 +15,7 @@ func init() { register("C16", runC16) }
 func pureOpaque(what string) bool {
 	name := strings.TrimPrefix(what, "opaque:")
 	for _, p := range []string{
-		"fmt.", "errors.", "strings.", "strconv.", "unicode.", "unicode/utf8.", "reflect.TypeOf", "reflect.Type.",
+		"fmt.", "errors.", "strings.", "strconv.", "unicode.", "unicode/utf8.", "reflect.TypeOf", "reflect.Type.", "reflect.DeepEqual",
 		"(*sync.", "(*sync/atomic.", "(*regexp.Regexp).", "os.Getenv", "bytes.Equal", "bytes.Compare",
 	} {
 		if strings.HasPrefix(name, p) {
@@ -187,6 +188,60 @@ func runC16(c *Ctx) {
 	}
 	r.Floor("R16.1", "package-level variables of the module", nglob, 12)
 
+	// R16.4 no reference into package-level mutable state is handed out or stored elsewhere
+	r.Rule("R16.4", "no pointer into package-level state that could be modified through it leaves the function that obtained it")
+	nesc := 0
+	nseen := 0
+	for _, fn := range c.LibFuncs() {
+		if isPkgInit(fn) {
+			continue
+		}
+		check := func(v ssa.Value, at ssa.Instruction, how string) {
+			if v == nil || !containsMutablePointers(v.Type(), 0) {
+				return
+			}
+			for o := range e.originOf(fn, v) {
+				if o.Kind != orgGlobal {
+					continue
+				}
+				nseen++
+				if immutableGlobalTarget(c, o.Glob, v.Type()) {
+					continue
+				}
+				nesc++
+				r.Check("R16.4", FuncName(fn), how+" a reference into var "+relPkg(o.Glob.Pkg.Pkg.Path())+"."+o.Glob.Name(), at.Pos(), false,
+					"a "+shortType(v.Type())+" reachable from package-level state escapes: whoever holds it can modify state shared by all tables, outside any lock")
+			}
+		}
+		for _, ret := range returnsOf(fn) {
+			for _, v := range results(ret) {
+				check(v, ret, "returns")
+			}
+		}
+		eachInstr(fn, func(in ssa.Instruction) {
+			st, ok := in.(*ssa.Store)
+			if !ok {
+				return
+			}
+			// storing it into something that is not itself that global
+			root, _ := addrPath(st.Addr)
+			if g, isG := root.(*ssa.Global); isG {
+				_ = g
+				return
+			}
+			if _, isLocal := root.(*ssa.Alloc); isLocal {
+				al := root.(*ssa.Alloc)
+				if !al.Heap {
+					return
+				}
+			}
+			check(st.Val, in, "stores elsewhere")
+		})
+	}
+	if nesc == 0 {
+		r.Check("R16.4", "module", "no escaping reference into mutable package-level state", 0, true, fmt.Sprintf("%d global-rooted references examined, all to immutable targets", nseen))
+	}
+
 	// R16.3 wrapper fields
 	nw := 0
 	for _, w := range []struct{ pkg, typ string }{{"csv", "CSVTable"}, {"html", "HTMLTable"}, {"json", "JSONTable"}, {"markdown", "MarkdownTable"}, {"texttable", "TextTable"}} {
@@ -320,4 +375,72 @@ func heldAtInstr(fn *ssa.Function, gg *guardedGlobal, at ssa.Instruction) bool {
 		s = step(s, ins)
 	}
 	return false
+}
+
+// containsMutablePointers: values of this type can be used to modify something they point to.
+func containsMutablePointers(t types.Type, depth int) bool {
+	if depth > 4 {
+		return true
+	}
+	switch u := t.Underlying().(type) {
+	case *types.Basic:
+		return false
+	case *types.Pointer, *types.Slice, *types.Map, *types.Chan:
+		return true
+	case *types.Signature:
+		return false
+	case *types.Interface:
+		return true
+	case *types.Struct:
+		for i := 0; i < u.NumFields(); i++ {
+			if containsMutablePointers(u.Field(i).Type(), depth+1) {
+				return true
+			}
+		}
+		return false
+	case *types.Array:
+		return containsMutablePointers(u.Elem(), depth+1)
+	case *types.Tuple:
+		for i := 0; i < u.Len(); i++ {
+			if containsMutablePointers(u.At(i).Type(), depth+1) {
+				return true
+			}
+		}
+		return false
+	}
+	return true
+}
+
+// immutableGlobalTarget: what the global holds cannot be modified through a reference to it: an error value,
+// or a pointer to a module type none of whose fields is ever stored to after construction.
+func immutableGlobalTarget(c *Ctx, g *ssa.Global, vt types.Type) bool {
+	gt := g.Type().(*types.Pointer).Elem()
+	if isErrorType(gt) || isErrorType(vt) {
+		return true
+	}
+	var target types.Type
+	if pt, ok := gt.Underlying().(*types.Pointer); ok {
+		target = pt.Elem()
+	} else {
+		target = gt
+	}
+	n, ok := target.(*types.Named)
+	if !ok || n.Obj().Pkg() == nil || !strings.HasPrefix(n.Obj().Pkg().Path(), modPath) {
+		return false
+	}
+	st, isStruct := n.Underlying().(*types.Struct)
+	if !isStruct {
+		_, isBasic := n.Underlying().(*types.Basic)
+		return isBasic
+	}
+	ix := c.Idx()
+	for i := 0; i < st.NumFields(); i++ {
+		if containsMutablePointers(st.Field(i).Type(), 0) {
+			return false
+		}
+		if !ix.immutableField(st.Field(i)) {
+			return false
+		}
+	}
+	return true
 }
